@@ -80,9 +80,104 @@ func emptyModel(m *dmodel.Model) *dmodel.Model {
 var handNames = []string{"rename-table", "rename-column", "rename-index", "rename-enum", "add-schema", "drop-schema",
 	"realm-create", "realm-drop", "seq-create", "seq-drop", "rename-table+drop-schema", "modify-schema"}
 
+// Clauses of the hand-built multi-clause ModifyTable lists ("pair:<a>+<b>[+<c>]"). For the irreversible
+// ones the planners document that no undoing clause exists: a CHECK without a name ("Reverse operation is
+// supported if the constraint name is not generated"), and on MySQL a table attribute that is added or
+// dropped (there is no clause that removes an attribute).
+var (
+	reversibleClauses   = []string{"namedcheck", "addcol", "addindex"}
+	irreversibleClauses = map[string][]string{
+		"mysql":    {"unnamedcheck", "addcomment", "dropcomment", "addautoinc"},
+		"postgres": {"unnamedcheck"},
+	}
+)
+
+func isIrreversibleClause(n string) bool {
+	for _, l := range irreversibleClauses {
+		for _, x := range l {
+			if x == n {
+				return true
+			}
+		}
+	}
+	return false
+}
+
+// pairNames lists every ordered pair {reversible, irreversible} (both orders), the irreversible pairs
+// followed by a named check, and two triples, for the dialect.
+func pairNames(d string) []string {
+	var out []string
+	for _, i := range irreversibleClauses[d] {
+		for _, r := range reversibleClauses {
+			out = append(out, "pair:"+i+"+"+r, "pair:"+r+"+"+i)
+		}
+		out = append(out, "pair:"+i+"+addcol+namedcheck", "pair:addcol+"+i+"+namedcheck", "pair:"+i)
+	}
+	for _, r := range reversibleClauses {
+		for _, r2 := range reversibleClauses {
+			if r != r2 {
+				out = append(out, "pair:"+r+"+"+r2)
+			}
+		}
+	}
+	return out
+}
+
+// expectIrreversible reports whether a hand-built list contains a clause that cannot be reversed.
+func expectIrreversible(shape string) (string, bool) {
+	if !strings.HasPrefix(shape, "hand:pair:") {
+		return "", false
+	}
+	for _, n := range strings.Split(strings.TrimPrefix(shape, "hand:pair:"), "+") {
+		if isIrreversibleClause(n) {
+			return n, true
+		}
+	}
+	return "", false
+}
+
+func pairChanges(d string, s *schema.Schema, spec string) ([]schema.Change, bool) {
+	if len(s.Tables) == 0 || len(s.Tables[0].Columns) == 0 {
+		return nil, false
+	}
+	t := s.Tables[0]
+	c0 := t.Columns[0]
+	var list []schema.Change
+	for _, n := range strings.Split(spec, "+") {
+		switch n {
+		case "namedcheck":
+			list = append(list, &schema.AddCheck{C: schema.NewCheck().SetName("k_c17").SetExpr("(" + c0.Name + " IS NOT NULL)")})
+		case "unnamedcheck":
+			list = append(list, &schema.AddCheck{C: schema.NewCheck().SetExpr("(" + c0.Name + " IS NOT NULL OR 1 = 1)")})
+		case "addcol":
+			nc := schema.NewColumn("c_c17").SetType(c0.Type.Type).SetNull(true)
+			nc.Type.Raw = c0.Type.Raw
+			list = append(list, &schema.AddColumn{C: nc})
+		case "addindex":
+			list = append(list, &schema.AddIndex{I: schema.NewIndex("i_c17").AddColumns(c0)})
+		case "addcomment":
+			list = append(list, &schema.AddAttr{A: &schema.Comment{Text: "c17"}})
+		case "dropcomment":
+			list = append(list, &schema.DropAttr{A: &schema.Comment{Text: "c17"}})
+		case "addautoinc":
+			list = append(list, &schema.AddAttr{A: &mysql.AutoIncrement{V: 100}})
+		default:
+			return nil, false
+		}
+	}
+	return []schema.Change{&schema.ModifyTable{T: t, Changes: list}}, true
+}
+
 // handChanges builds the named change list over a fresh graph of the model. ok=false: not applicable.
 func handChanges(d string, m *dmodel.Model, name string) (changes []schema.Change, ok bool, err error) {
 	s := dmodel.Build(m)
+	if strings.HasPrefix(name, "pair:") {
+		if d == "sqlite" {
+			return nil, false, nil
+		}
+		ch, ok := pairChanges(d, s, strings.TrimPrefix(name, "pair:"))
+		return ch, ok, nil
+	}
 	firstTable := func() *schema.Table {
 		if len(s.Tables) == 0 {
 			return nil
@@ -714,7 +809,10 @@ func shapeIssues(o planObs) (out []shapeIssue) {
 			}
 		}
 		if ch, ok := clauses(cmd); ok && len(revs) == 1 {
-			if rh, ok2 := clauses(revs[0]); ok2 && len(rh) < len(ch) {
+			if rh, ok2 := clauses(revs[0]); ok2 && len(rh) > len(ch) {
+				out = append(out, shapeIssue{"alter-table-reverse-has-more-clauses|" + stmtKind(cmd), cmd, revs[0],
+					fmt.Sprintf("ALTER TABLE with %d clauses %v is reversed by an ALTER TABLE with %d %v", len(ch), ch, len(rh), rh)})
+			} else if ok2 && len(rh) < len(ch) {
 				// name the clauses that have no counterpart: the heads of the command that are their own
 				// inverse (table attributes, MODIFY/CHANGE/ALTER/RENAME …) and do not occur in the reverse;
 				// when there is none, all heads of the command
@@ -723,9 +821,26 @@ func shapeIssues(o planObs) (out []shapeIssue) {
 					inRev[h] = true
 				}
 				lost, all := map[string]bool{}, map[string]bool{}
+				count := func(hs []string, pfx string) (n int) {
+					for _, h := range hs {
+						if strings.HasPrefix(h, pfx) {
+							n++
+						}
+					}
+					return
+				}
 				for _, h := range ch {
 					all[h] = true
-					if !strings.HasPrefix(h, "ADD") && !strings.HasPrefix(h, "DROP") && !inRev[h] {
+					switch {
+					case strings.HasPrefix(h, "ADD"):
+						if count(ch, "ADD") > count(rh, "DROP") {
+							lost[h] = true
+						}
+					case strings.HasPrefix(h, "DROP"):
+						if count(ch, "DROP") > count(rh, "ADD") {
+							lost[h] = true
+						}
+					case !inRev[h]:
 						lost[h] = true
 					}
 				}
@@ -866,6 +981,21 @@ func evalFlagCase(c *rt.Ctx, w *rt.W, cs FCase) {
 		return
 	}
 	c.Count("plans:"+cs.Dialect+":"+shapeClass(cs.Shape), 1)
+	if cl, irr := expectIrreversible(cs.Shape); irr {
+		// per clause reference: the hand-built ALTER TABLE holds a clause the planner cannot undo
+		c.Count("multi-clause-lists-with-an-irreversible-clause:"+cs.Dialect, 1)
+		if p.Reversible {
+			c.Violation("flag|"+cs.Dialect+"|irreversible-clause-reported-reversible|"+cl,
+				"a ModifyTable holding the irreversible clause "+cl+" ("+strings.TrimPrefix(cs.Shape, "hand:pair:")+") is reported reversible", cs,
+				map[string]any{"plan": planText(p)})
+		}
+	} else if strings.HasPrefix(cs.Shape, "hand:pair:") {
+		c.Count("multi-clause-lists-fully-reversible:"+cs.Dialect, 1)
+		if !p.Reversible {
+			c.Violation("flag|"+cs.Dialect+"|reversible-clauses-reported-irreversible|"+strings.TrimPrefix(cs.Shape, "hand:pair:"),
+				"a ModifyTable of reversible clauses only is reported irreversible", cs, map[string]any{"plan": planText(p)})
+		}
+	}
 	judgePlan(c, cs.Dialect, p, cs, true)
 	if c.WantSample() && p.Reversible && len(p.Changes) >= 3 && cs.Dialect != "sqlite" {
 		rl, _ := reverseList(p)
